@@ -261,6 +261,42 @@ def _tuple_flag_is_eq(prog, g, atom):
     return False
 
 
+def _indexing_helper_param(prog, g):
+    """if every normal path of g runs a `for e in <container>.iter() { val_index.entry(e).or_default().insert(P) }` loop with P one of
+    g's own parameters, return the 0-based argument position of P; else None"""
+    cache = prog.__dict__.setdefault("_c14_helper", {})
+    if g.name in cache:
+        return cache[g.name]
+    res = None
+    from .join_common import cross_origins, atom_path
+    for c in g.calls:
+        if not (c.p.endswith("Iterator>::next") or c.p.endswith("Iterator::next")):
+            continue
+        if not any(a[0] == "call" and a[1].endswith("ContainerValue::iter") for a in g.origins(c.args[0])):
+            continue
+        sw = c.target
+        if sw is None or g.term(sw)[0] != "switch":
+            continue
+        some = [tb for v, tb in g.term(sw)[2] if v == "1"]
+        if not some:
+            continue
+        for i in g.calls:
+            if not (i.p.endswith("IndexSet::insert") or i.p.endswith("IndexSet::insert_full")):
+                continue
+            pv = [a for a in g.origins(i.args[1]) if a[0] == "param" and not a[2]]
+            if not pv:
+                continue
+            r = {some[0]} | g.reach_avoiding([some[0]], {i.bb})
+            if c.bb in r:
+                continue
+            # the loop header is on every path to the return
+            if any(g.term(b)[0] == "ret" for b in g.reach_avoiding_from_entry({c.bb})):
+                continue
+            res = pv[0][1] - 1
+    cache[g.name] = res
+    return res
+
+
 def check_container_indexed(chk, prog):
     """val_index (element value -> ids of the containers mentioning it) drives incremental container rebuilds and the
     dirty-id closure: a container registered under an id must be indexed under that id for every element."""
@@ -321,6 +357,14 @@ def check_container_indexed(chk, prog):
                 r = {some} | f.reach_avoiding([some], ins) if some not in ins else set()
                 if nx.bb not in r:
                     good.add(nx.bb)
+            # a helper that always runs the indexing loop for the id it is given counts as the loop ("a wrapper is the thing it always does")
+            for hc in f.calls:
+                g2 = prog.fns.get(hc.p)
+                if g2 is None or not (g2.root or g2.name).startswith(CE + "::") or g2 is f:
+                    continue
+                pos = _indexing_helper_param(prog, g2)
+                if pos is not None and pos < len(hc.args) and (f.origins(hc.args[pos]) & V):
+                    good.add(hc.bb)
             undo = {u.bb for u in f.calls if u.p.endswith("DashMap::remove") and on_field(f, u.args[0], "to_container") and (f.origins(u.args[1]) & V)}
             doms = f.dom.get(c.bb, set())
             bad = None
